@@ -1,6 +1,5 @@
 """C06 - mapping matrices conserve flux and encode the claimed interpolation (rectangular / Delaunay mappers,
 dense matrix and sparse unique mappings)."""
-import os
 from fractions import Fraction
 
 import numpy as np
@@ -182,11 +181,6 @@ def POST_INSTALL():
 
         decide._c06_som = True
         explore.Explorer.decide = decide
-
-
-def _known(ids_regions):
-    live = set(filter(None, os.environ.get("VERIF_KNOWN", "").split(",")))
-    return {k: {fid: reg for fid, reg in v.items() if fid in live} for k, v in ids_regions.items()}
 
 
 def _sym(x):
